@@ -228,10 +228,12 @@ func RandStyle(rng *mrand.Rand) Style {
 	s.Shuf = rng.Intn(2) == 0
 	s.NSLate = rng.Intn(3) == 0 && s.PfxA != ""
 	if rng.Intn(4) == 0 {
-		s.Tail = []string{"\n", "\r\n", " \n", "\n\n", "<!-- end of message -->", "\n<!-- generated by sp-toolkit 4.2 -->\n", "<?sp-toolkit done?>", "\t"}[rng.Intn(8)]
+		// (white space and comments only: a processing instruction is legal XML too, but a provider may well refuse
+		// messages that carry one)
+		s.Tail = []string{"\n", "\r\n", " \n", "\n\n", "<!-- end of message -->", "\n<!-- generated by sp-toolkit 4.2 -->\n", "\t", "\n  \n"}[rng.Intn(8)]
 	}
 	if rng.Intn(8) == 0 {
-		s.Head = []string{"\n", "<!-- AuthnRequest -->", "\n<!-- generated by sp-toolkit 4.2 -->\n", "<?sp-toolkit version=\"4.2\"?>"}[rng.Intn(4)]
+		s.Head = []string{"\n", "<!-- AuthnRequest -->", "\n<!-- generated by sp-toolkit 4.2 -->\n", "\n\n"}[rng.Intn(4)]
 	}
 	return s
 }
